@@ -116,16 +116,20 @@ Example gsub12_pruned :
 Proof. vm_compute. reflexivity. Qed.
 
 Example gsub21_example :
-  exists b, M_gsubseq_encode (S_cov_table [3; 4]) [[1; 2]; [5]] = Ok b /\
-            M_gsubseq_read b 0 = Ok (S_cov_pairs [3; 4], [[1; 2]; [5]]) /\
-            M_gsubseq_len (S_cov_table [3; 4]) [[1; 2]; [5]] = Ok (lenN b).
-Proof. eexists. vm_compute. repeat split. Qed.
+  match M_gsubseq_encode (S_cov_table [3; 4]) [[1; 2]; [5]] with
+  | Ok b => M_gsubseq_read b 0 = Ok (S_cov_pairs [3; 4], [[1; 2]; [5]]) /\
+            M_gsubseq_len (S_cov_table [3; 4]) [[1; 2]; [5]] = Ok (lenN b)
+  | _ => False
+  end.
+Proof. vm_compute. split; reflexivity. Qed.
 
 (* GPOS 1.2: nil next to a non-zero record comes back as the zero record *)
 Example gpos12_example :
-  exists b, M_gpos12_encode (S_cov_table [3; 4]) [None; vr1] = Ok b /\
-            M_gpos12_read b 0 = Ok (S_cov_pairs [3; 4], [Some vr_zero; vr1]).
-Proof. eexists. vm_compute. split; reflexivity. Qed.
+  match M_gpos12_encode (S_cov_table [3; 4]) [None; vr1] with
+  | Ok b => M_gpos12_read b 0 = Ok (S_cov_pairs [3; 4], [Some vr_zero; vr1])
+  | _ => False
+  end.
+Proof. vm_compute. reflexivity. Qed.
 
 (* the repaired defect: 32765 substitutes put the coverage table beyond 65535 *)
 Example gsub12_overflow_refused :
